@@ -76,7 +76,7 @@ def c12(prop, tier, replay):
         total_expected = 0
         for sq in range(64):
             for k, idx in (("rook", 0), ("bishop", 1)):
-                exp = 2 ** masks[sq][idx]
+                exp = 2 ** (masks[str(sq)] if isinstance(masks, dict) else masks[sq])[idx]
                 total_expected += exp
                 if counts.get((k, sq), 0) != exp:
                     raise vf.Infra("exhaustive class incomplete: %s sq %d has %d of %d subsets" % (k, sq, counts.get((k, sq), 0), exp))
@@ -102,4 +102,71 @@ def c12(prop, tier, replay):
         }
         vf.write_evidence(prop, tier, "model_checking", cov, time.time() - t0, len(new),
                           ["TLC + Geometry.tla", "rec-attacks dumps entries verbatim; mask subsets are re-checked by the spec"])
+        return vf.report(prop, known, paths)
+
+
+# ------------------------------------------------------------------ C14
+
+def apalache_time(work):
+    """Apalache: the formula model satisfies the requirement on the whole domain (proof of the design)."""
+    d = os.path.join(work, "apa")
+    os.makedirs(d, exist_ok=True)
+    for f in ("TimeCtl.tla", "TimeCtlApa.tla"):
+        import shutil
+        shutil.copy(os.path.join(vf.SPEC, f), d)
+    t0 = time.time()
+    p = vf.run(["timeout", "600", "apalache-mc", "check", "--init=Init", "--inv=Inv", "--length=0", "--out-dir=" + os.path.join(d, "out"), "TimeCtlApa.tla"],
+               cwd=d, timeout=700, check=False)
+    ok = "The outcome is: NoError" in p.stdout
+    if not ok:
+        raise vf.Infra("Apalache did not establish the time-control requirement for the formula model:\n" + p.stdout[-2000:])
+    return dict(tool="apalache-mc 0.58 check --inv=Inv --length=0 TimeCtlApa.tla", outcome="NoError",
+                domain="t in 1..10^12, inc in 0..10^9, movetime in 0..10^12", wall_s=round(time.time() - t0, 1))
+
+
+def c14(prop, tier, replay):
+    t0 = time.time()
+    with vf.scratch("verif-C14-") as work:
+        vf.stage_specs(work)
+        bins = vf.build_harness(work, ["rec-time"])
+        nsh = vf.NCPU
+        nrand = 40000 if tier == "quick" else 600000
+        ndrv = 400 if tier == "quick" else 4000
+        if replay:
+            rp = json.load(open(replay))
+            e = rp["entry"]
+            val = lambda x: x[0] * (1 << 20) + x[1]
+            path = os.path.join(work, "replay.ndjson")
+            vf.run([bins["rec-time"], "-one", ",".join(str(v) for v in (val(e["w"]), val(e["b"]), val(e["wi"]), val(e["bi"]), val(e["mt"]), e["stm"])),
+                    "-out", path], timeout=120)
+            _, mm, _ = tc.validate_trace(work, "TimeTrace", path)
+            if [m for m in mm if m["rule"].startswith("C14/")]:
+                print("VIOLATION property=C14 replay=%s" % replay)
+                return 1
+            return 0
+        apa = apalache_time(work)
+
+        def job(i):
+            def record(path, i=i):
+                vf.run([bins["rec-time"], "-shard", str(i), "-nshards", str(nsh), "-rand", str(nrand), "-drv", str(ndrv),
+                        "-seed", str(vf.seed()), "-out", path], timeout=600)
+            return dict(name="C14-%d" % i, record=record)
+        res = tc.run_shards(work, "TimeTrace", [job(i) for i in range(nsh)], timeout=1500)
+        mine = [m for m in res.mm if m["rule"].startswith("C14/")]
+        known, new = vf.classify(prop, mine)
+        paths = []
+        cache = {}
+        for m in new[:6]:
+            evs = cache.setdefault(m["file"], vf.read_ndjson(m["file"]))
+            paths.append(vf.write_replay(prop, "%s-%d" % (m["rule"].split("/")[1], len(paths)),
+                                         {"property": prop, "kind": "clock-state", "entry": evs[m["l"] - 1], "rejected": {k: v for k, v in m.items() if k not in ("file", "detail")}}))
+        cov = {
+            "states": res.states, "transitions": res.transitions, "traces_validated_against_impl": len(res.files),
+            "clock_states_judged": res.events,
+            "apalache": apa,
+            "samples": res.samples[:2],
+            "rule": "dense grid t in 1..200, k*30+-2, 2^k+-1 (k<=39), clamp break-points x 20 increments x both colours, movetime variants, random up to 10^12; each state also under 5 other opponent clocks; %d states through a real driver" % ndrv,
+        }
+        vf.write_evidence(prop, tier, "model_checking", cov, time.time() - t0, len(new),
+                          ["TLC, Apalache/Z3", "uci.VerifLimits calls the same timeControl methods handleGo uses (hook file uci/export_verif.go)"])
         return vf.report(prop, known, paths)
